@@ -88,19 +88,21 @@ TRecv(e)  == /\ st.task[e].ph = "run" /\ st.rxblk[e].k = "none" /\ SrcHasMsg(st,
              /\ st' = RecvOne(st, e)
 TSend(e)  == /\ st.task[e].ph = "run" /\ st.sink[e] = "open" /\ st.outq[e] # <<>>
              /\ st' = SendOne(st, e)
-TSinkErr(e) == /\ st.task[e].ph = "run" /\ st.sink[e] # "open"
-               /\ st' = BeginWd(st, e, FALSE, "ws")
+TSinkErr(e) == /\ st.task[e].ph = "run"
+               /\ \/ st.sink[e] \in {"cut", "closed"} /\ st' = BeginWd(st, e, FALSE, "ws")
+                  \/ st.sink[e] = "softcut" /\ st.outq[e] # <<>>
+                     /\ st' = BeginWd([st EXCEPT !.outq[e] = Tail(@)], e, FALSE, "ws")
 TDrop(e)  == /\ st.task[e].ph = "run" /\ st.drops[e] # <<>>
              /\ st' = DropOne(st, e)
 TWd(e)    == /\ st.task[e].ph \notin {"run", "done"}
              /\ \E gr \in {0, 1}, gs \in {0, 1} : st' = WdRun(st, e, gr, gs) /\ st' # st
 
-NFaults == Cardinality({e \in E : st.src[e] = "ended" \/ st.sink[e] = "cut"})
 AFault(e) ==
   /\ st.healthy
   /\ \/ "cutsrc"  \in Faults /\ st' \in CutSrc(st, e)
      \/ "endsrc"  \in Faults /\ st' \in EndSrc(st, e)
      \/ "cutsink" \in Faults /\ st' \in CutSink(st, e)
+     \/ "softcut" \in Faults /\ st' \in SoftCutSink(st, e)
 
 AAdv ==
   /\ st.advn < MaxAdv
